@@ -9,6 +9,7 @@ from symx.runner import Family, arr, increasing, run_check
 from symx.core import Sym
 from checks.weaverfam import make_state, domain_ops, apply_domain, apply_reshape, RESHAPES, terms
 from checks.c08 import seq_equal
+from checks.c13 import WeaverGridIntegerTypedSeries
 
 OTHER = ("restore_original", "slice_by_index", "slice_by_value", "to_function", "to_2d_array", "copy-semantics")
 
@@ -267,4 +268,4 @@ if __name__ == "__main__":
     ap = argparse.ArgumentParser()
     ap.add_argument("--tier", default="quick")
     a = ap.parse_args()
-    sys.exit(run_check("C09", "well-formed state", [Step(), ListArguments(), Restore(), Programs()], a.tier, META))
+    sys.exit(run_check("C09", "well-formed state", [Step(), ListArguments(), Restore(), Programs(), WeaverGridIntegerTypedSeries()], a.tier, META))
